@@ -513,7 +513,7 @@ func genC19(rt *rapid.T) c19Case {
 func TestC19(t *testing.T) {
 	rec := evid.For("C19")
 	rec.Rule = "reads: rapid draws 2-8 wsjson.Read calls over 1-3 connections (sharing the buffer pool), each with a document from a recursive JSON generator (depth <= 6, unicode/escapes, strings up to 160 KB with the read limit raised - in a quarter of the cases only while the connection's first Read is already waiting -, numbers, nulls), optionally indented, mangled (truncated, trailing garbage, two values, garbage) or of the wrong shape for the target, sent uncompressed or compressed (the peer's compressor keeping its window where agreed, a third of the documents repeating an earlier one), framed as one frame / two fragments / one non-final frame plus an empty final frame, read with the shared context or with a context of its own that is cancelled as soon as the call returned; writes: 1-5 wsjson.Write calls incl. values encoding/json rejects (NaN, Inf, chan, func, failing Marshaler), after which the later values must still arrive; decoded into interface{}, a struct, json.RawMessage, []byte, string, map or slice; compared with encoding/json on the same bytes (accept/reject and value), invalid => Close 1007 on the wire, earlier results re-checked after all later reads. writes: generated values written with wsjson.Write must appear as exactly one text message whose payload is JSON-equivalent. Non-trivial: a nested value (depth >= 2) or a RawMessage/[]byte target followed by another read. distinct = hash(mode, conns, per-read (target, mangle, depth, size class))."
-	rapid.Check(t, func(rt *rapid.T) {
+	checkProp(t, func(rt *rapid.T) {
 		c := genC19(rt)
 		var msg string
 		var res c19Result
@@ -528,7 +528,7 @@ func TestC19(t *testing.T) {
 // TestC19Concurrent: the same programs with one goroutine per connection (run under -race too).
 func TestC19Concurrent(t *testing.T) {
 	rec := evid.For("C19")
-	rapid.Check(t, func(rt *rapid.T) {
+	checkProp(t, func(rt *rapid.T) {
 		c := genC19(rt)
 		c.Conns = 3
 		for i := range c.Reads {
@@ -580,7 +580,7 @@ func (c19BadMarshaler) MarshalJSON() ([]byte, error) {
 
 func TestC19Write(t *testing.T) {
 	rec := evid.For("C19")
-	rapid.Check(t, func(rt *rapid.T) {
+	checkProp(t, func(rt *rapid.T) {
 		mode := rapid.SampledFrom(c16Modes).Draw(rt, "mode")
 		n := rapid.IntRange(1, 5).Draw(rt, "nWrites")
 		var vals []any
